@@ -15,7 +15,7 @@ import (
 // constants observed through execution.
 
 // inverse of L'(b) = b ^ (b<<<13) ^ (b<<<23) by Gaussian elimination over GF(2)
-func lPrimeInvTable() func(uint32) uint32 {
+func zvLPrimeInvTable() func(uint32) uint32 {
 	lp := func(b uint32) uint32 { return b ^ (b<<13 | b>>19) ^ (b<<23 | b>>9) }
 	// columns: image of each basis vector; solve M x = y for each basis y
 	var rows [32]uint64 // row i: bits 0..31 = matrix row, bits 32..63 = identity (augmented)
@@ -77,8 +77,8 @@ func TestVerifC18SM4(t *testing.T) {
 	// ---- Go tables (walked at start, and again after the package has been used: they are live state)
 	for phase := 0; phase < 2; phase++ {
 		if phase == 1 {
-			for _, asm := range paths() {
-				withAsm(asm, func() {
+			for _, asm := range zvPaths() {
+				zvWithAsm(asm, func() {
 					for q := 0; q < 40; q++ {
 						key := rng.Bytes(16)
 						blk, err := NewCipher(key)
@@ -87,7 +87,7 @@ func TestVerifC18SM4(t *testing.T) {
 						}
 						b := rng.Bytes(32)
 						hk.Try(func() { blk.Encrypt(b, b); blk.Decrypt(b[16:], b[:16]) })
-						if a, err := newAEAD(key, []int{12, 13, 16, 129}[q%4], 16); err == nil {
+						if a, err := zvNewAEAD(key, []int{12, 13, 16, 129}[q%4], 16); err == nil {
 							n := rng.Bytes(a.NonceSize())
 							ct := a.Seal(nil, n, rng.Bytes(rng.Intn(300)), rng.Bytes(rng.Intn(40)))
 							hk.Try(func() { a.Open(nil, n, ct, nil) })
@@ -130,7 +130,7 @@ func TestVerifC18SM4(t *testing.T) {
 	}
 	r.Sample(hk.D{"table": "s2", "x": 0x37, "derivation": "L(sbox[x] << 8)", "value": fmt.Sprintf("%08x", s2[0x37])})
 
-	if !asmDetected {
+	if !zvAsmDetected {
 		r.Note("assembly_constants", "not executable on this CPU")
 		return
 	}
@@ -170,7 +170,7 @@ func TestVerifC18SM4(t *testing.T) {
 	r.EvalN("asm:affine-macro-lanes", 64*64)
 
 	// ---- FK<> and CK<> recovered from expandKeyAsm outputs
-	linv := lPrimeInvTable()
+	linv := zvLPrimeInvTable()
 	var sinv [256]byte
 	for x := 0; x < 256; x++ {
 		sinv[ref.SM4Sbox[x]] = byte(x)
